@@ -12,7 +12,7 @@ RULE = ('Histories of public mutator calls biased to rejected calls (multi-eleme
         'call on a graph with >=3 attached tasks; distinct = distinct (universe, op list).  Small-scope sub-run: every '
         '1-step history over the full small alphabet and every 2-step history over a tiny alphabet, 4 tasks / 2 WBSs, 10 seed '
         'shapes (thorough: also the mixed reduced x tiny 2-step histories).')
-ASSUMPTIONS = ['Task(...) constructor calls are executed but not judged (a constructor is not a mutator of an existing object)',
+ASSUMPTIONS = ['a Task(...) constructor call that names existing tasks (parent=, children=, predecessors=, successors=) mutates them and is judged like any other call',
                'snapshots use the direct public getters; recursive getters are compared separately']
 
 FUZZ = [('random-late', 4000)]       # thorough tier: coverage-guided sub-run (vf/fuzz.py), runs per process x 16 processes
